@@ -193,7 +193,7 @@ func init() {
 func init() {
 	reg(&PropSpec{ID: "C15", Title: "Client and server exchange frames intact (mechanisms only)", DesignRef: "DESIGN.md §4 C15",
 		Groups: []Group{
-			{Funcs: `^client\.newCql(Client|Server)Connection$|^\(\*client\.Cql(Client|Server)Connection\)\.(writeSegment|maybeSwitchToModernLayout)$|^\(\*client\.CqlClientConnection\)\.(addMultiSegmentPayload|readFrame)$`,
+			{Funcs: `^client\.newCql(Client|Server)Connection$|^\(\*client\.Cql(Client|Server)Connection\)\.(writeSegment|maybeSwitchToModernLayout)$|^\(\*client\.CqlClientConnection\)\.(addMultiSegmentPayload|readFrame)$|^\(\*client\.payloadAccumulator\)\.reset$`,
 				OnlyCt: true, AbstractConc: true, Classes: []string{"post", "pre", "nil", "index", "alloc", "typeassert", "frame", "cover"}},
 			// every envelope of a self-contained segment reaches the frame reader (only the postcondition is claimed here:
 			// the connection invariant across the reader's side effects is not re-established by these contracts)
